@@ -940,6 +940,9 @@ class WalletTransaction(Transaction):
                     tx_input.prev_txid = ti.prev_txid
                 if ti.unlocking_script:
                     tx_input.script = ti.unlocking_script
+                if ti.witnesses:
+                    tx_input.witnesses = int_to_varbyteint(len(ti.witnesses)) + \
+                                         b''.join([bytes(varstr(w)) for w in ti.witnesses])
 
             self.hdwallet._commit()
         for to in self.outputs:
